@@ -212,9 +212,20 @@ def rule_z4(chk: Check, ix: Index):
     f = ix.get("Tokenizer.get_lines")
     tests = [n for n in own_nodes(f.node) if isinstance(n, ast.If)]
     chk.count("Z4-line-source")
-    sel = tests[0] if tests else None
-    ok = sel is not None and norm_stmt(sel.test) in ("not self._path", "self._path", "self._path == ''", "self._path != ''") and \
-        any("open(" in norm_stmt(s) for s in ast.walk(sel) if isinstance(s, ast.With))
+    PATH_TESTS = ("not self._path", "self._path", "self._path == ''", "self._path != ''")
+    sel = next((n for n in f.node.body if isinstance(n, ast.If)), None) or (tests[0] if tests else None)
+    if sel is not None and norm_stmt(sel.test) not in PATH_TESTS:
+        sel = next((n for n in tests if norm_stmt(n.test) in PATH_TESTS), sel)
+    path_test = sel is not None and norm_stmt(sel.test) in ("not self._path", "self._path", "self._path == ''", "self._path != ''")
+    opens_inside = sel is not None and any("open(" in norm_stmt(s) for s in ast.walk(sel) if isinstance(s, ast.With))
+    # guard-clause form: the string-mode branch returns, the file scan is the rest of the function
+    guard_form = False
+    if path_test and not opens_inside and sel in f.node.body:
+        string_branch = sel.body if norm_stmt(sel.test) in ("not self._path", "self._path == ''") else sel.orelse
+        after = f.node.body[f.node.body.index(sel) + 1:]
+        guard_form = bool(string_branch) and isinstance(string_branch[-1], ast.Return) and \
+            any("open(" in norm_stmt(s) for st in after for s in ast.walk(st) if isinstance(s, ast.With))
+    ok = path_test and (opens_inside or guard_form)
     chk.require(ok, "Z4-line-source", "Tokenizer.get_lines:selection", f.where,
                 "the two line sources (token cache / file scan) must be selected by whether a path was given — not by whether the "
                 "cache happens to be non-empty: a string source without any token line (`parse_string('', mode='eval')`) has an empty "
